@@ -179,6 +179,9 @@ def rule_a(ctx):
             tys = " ".join(c.get("targs", []) + [c.get("self_ty", "")])
             if not any(n_ in tys for n_ in ("RenderNode", "RenderTableRow", "RenderTableCell")):
                 continue
+            sty = c.get("self_ty") or ""
+            if ("slice::Iter<" in sty or "slice::IterMut<" in sty) and "IntoIter" not in sty and "Drain" not in sty:
+                continue  # an iterator over borrowed nodes: skipping an element destroys nothing
             nf += 1
             key = "%s:%s" % (fn_key(b), callee_method(t))
             row = table.get((fn_key(b), callee_method(t)))
